@@ -41,10 +41,10 @@ func intParam(q url.Values, key, tok string) {
 	}
 }
 
-func runQ(out *common.Out, c qCase) {
-	res := "panic"
-	guarded("q FromQuery", func() error {
-		q := url.Values{}
+// buildQuery: the url.Values a typed parameter set stands for.
+func buildQuery(c qCase) url.Values {
+	q := url.Values{}
+	{
 		name, _ := wire.ParseStrTok(c.kv["name"])
 		q.Set("name", name)
 		if m := c.kv["mode"]; m != "-" {
@@ -101,6 +101,14 @@ func runQ(out *common.Out, c qCase) {
 			}
 			q.Set("origins", strings.Join(strs, ","))
 		}
+	}
+	return q
+}
+
+func runQ(out *common.Out, c qCase) {
+	res := "panic"
+	guarded("q FromQuery", func() error {
+		q := buildQuery(c)
 		po := &api.PinOptions{}
 		if err := po.FromQuery(q); err != nil {
 			res = "err"
